@@ -1,4 +1,4 @@
-import MypyVerif.Proofs.TypesSimp
+import MypyVerif.Proofs.TypesMeet
 /-!
 # C08 — the type lattice obeys its laws (for the modelled fragment)
 
@@ -103,5 +103,66 @@ theorem simplify_perm (H : Hier) (hok : H.ok = true) (items items' : List Ty)
 /-- the results really differ syntactically between orders (so the statement is about equivalence) -/
 example : simplifyUnion demoH [.inst 4, .lit 4 2, .gen 6 (.inst 5)] ≠ simplifyUnion demoH [.gen 6 (.inst 5), .lit 4 2, .inst 4] := by
   decide
+
+/-! ### join and meet
+
+`Ty.noFunc`: `builtins.function` does not occur; `Ty.latOk`: the argument of every invariant or contravariant
+generic instance is free of `Type[...]`.  Both are decidable predicates; both are needed (see the `not_…`
+theorems).  The statements cover both argument orders: they hold for every ordered pair. -/
+
+/-- `join_types` and `meet_types` stay inside the well-formed fragment. -/
+theorem join_meet_wf (H : Hier) (hok : H.ok = true) (s t : Ty)
+    (ws : s.wf H = true) (wt : t.wf H = true) (ns : s.noFunc H = true) (nt : t.noFunc H = true)
+    (ls : s.latOk H = true) (lt : t.latOk H = true) :
+    (join H s t).wf H = true ∧ (meet H s t).wf H = true := by
+  have := jm_good (H.ok_sound hok) _ s t (Nat.le_refl _) (Hyp.of ws ns ls) (Hyp.of wt nt lt)
+  exact ⟨this.1.wf, this.2.wf⟩
+
+/-- **join_upper_partial**: the join is a supertype of both operands. -/
+theorem join_upper_partial (H : Hier) (hok : H.ok = true) (s t : Ty)
+    (ws : s.wf H = true) (wt : t.wf H = true) (ns : s.noFunc H = true) (nt : t.noFunc H = true)
+    (ls : s.latOk H = true) (lt : t.latOk H = true) :
+    isSubtype H s (join H s t) = true ∧ isSubtype H t (join H s t) = true := by
+  have := (jm_good (H.ok_sound hok) _ s t (Nat.le_refl _) (Hyp.of ws ns ls) (Hyp.of wt nt lt)).1
+  exact ⟨this.left, this.right⟩
+
+/-- the join of equivalent operands is equivalent to them (what the invariant/contravariant branch of
+    `join_instances` and `combine_similar_callables` rely on). -/
+theorem join_of_equivalent (H : Hier) (hok : H.ok = true) (s t : Ty)
+    (ws : s.wf H = true) (wt : t.wf H = true) (ns : s.noFunc H = true) (nt : t.noFunc H = true)
+    (ls : s.latOk H = true) (lt : t.latOk H = true)
+    (h1 : isSubtype H s t = true) (h2 : isSubtype H t s = true) :
+    isSubtype H (join H s t) s = true ∧ isSubtype H (join H s t) t = true :=
+  (jm_good (H.ok_sound hok) _ s t (Nat.le_refl _) (Hyp.of ws ns ls) (Hyp.of wt nt lt)).1.equiv h1 h2
+
+/-- **meet_lower_partial**: the meet is a subtype of both operands. -/
+theorem meet_lower_partial (H : Hier) (hok : H.ok = true) (s t : Ty)
+    (ws : s.wf H = true) (wt : t.wf H = true) (ns : s.noFunc H = true) (nt : t.noFunc H = true)
+    (ls : s.latOk H = true) (lt : t.latOk H = true) :
+    isSubtype H (meet H s t) s = true ∧ isSubtype H (meet H s t) t = true := by
+  have := (jm_good (H.ok_sound hok) _ s t (Nat.le_refl _) (Hyp.of ws ns ls) (Hyp.of wt nt lt)).2
+  exact ⟨this.left, this.right⟩
+
+/-- non-vacuity: a join through the diamond-free hierarchy, a callable join (meet of parameters, join of
+    returns), tuples of different length (fallback), and a meet of unions -/
+example :
+    join demoH (.gen 6 (.inst 5)) (.union [.gen 6 (.inst 4), .none]) = .union [.gen 6 (.inst 4), .none]
+    ∧ join demoH (.callable [.inst 4] (.inst 5)) (.callable [.inst 5] (.inst 4)) = .callable [.inst 5] (.inst 4)
+    ∧ join demoH (.tuple [.inst 5]) (.tuple [.inst 4, .inst 5]) = .gen 1 (.inst 4)
+    ∧ meet demoH (.union [.inst 4, .none]) (.union [.inst 5, .gen 6 (.inst 4)]) = .inst 5 := by decide
+
+/-- **not_meet_lower** (finding F25): without `latOk` the statement is false of the transcribed rules (and of
+    the code): for contravariant `Cn`, `meet(Cn[Callable[[], A]], Cn[Type[A]]) = Cn[Never]`, a subtype of neither. -/
+theorem not_meet_lower : ∃ (H : Hier) (s t : Ty), H.ok = true ∧ s.wf H = true ∧ t.wf H = true ∧
+    s.noFunc H = true ∧ t.noFunc H = true ∧
+    isSubtype H (meet H s t) s = false ∧ isSubtype H (meet H s t) t = false :=
+  ⟨demoH, .gen 7 (.callable [] (.inst 4)), .gen 7 (.typeType (.inst 4)), by decide⟩
+
+/-- **not_join_upper**: the same cell breaks the join of callables whose parameters meet there:
+    `join(Callable[[Cn[Callable[[], A]]], A], Callable[[Cn[Type[A]]], A])` has parameter `Cn[Never]`. -/
+theorem not_join_upper : ∃ (H : Hier) (s t : Ty), H.ok = true ∧ s.wf H = true ∧ t.wf H = true ∧
+    s.noFunc H = true ∧ t.noFunc H = true ∧ isSubtype H s (join H s t) = false :=
+  ⟨demoH, .callable [.gen 7 (.callable [] (.inst 4))] (.inst 4), .callable [.gen 7 (.typeType (.inst 4))] (.inst 4),
+   by decide⟩
 
 end Types
